@@ -196,6 +196,8 @@ def numCoefs (c : Content) : Bool :=
 /-- every variable occurs in some reaction's stoichiometry, and only variables do -/
 def allVarsHaveEq (c : Content) : Bool :=
   (omKeys c.vars).all fun v => (omKeys (diffEqs c.rxns)).contains v
+/-- there is at least one differential equation (otherwise the return line is `()` / `[()]`, F-C07-3) -/
+def hasEq (c : Content) : Bool := !(diffEqs c.rxns).isEmpty
 def stoichOnVars (c : Content) : Bool :=
   (omKeys (diffEqs c.rxns)).all fun v => (omKeys c.vars).contains v
 
@@ -212,11 +214,12 @@ def wellNamed (c : Content) : Bool :=
   && c.rxns.all fun kv => nodupB (omKeys kv.2.stoich)
 
 /-- the decidable hypothesis of `C07_equiv_partial`: no surrogates / data (variables and parameters may be
-    initial assignments), numeric coefficients (a limit of the proof), well-formed names, every variable
-    has an equation and only variables do (F-C07-3), at least one variable -/
+    initial assignments), numeric coefficients (a limit of the proof), well-formed names, at least one
+    differential equation (F-C07-3; a variable that no reaction changes is allowed since `fix: a variable that no
+    reaction changes gets the derivative zero …`), only variables have equations, at least one variable -/
 def okC (c : Content) : Bool :=
   c.surs.isEmpty && c.data.isEmpty && numCoefs c && wellNamed c
-    && allVarsHaveEq c && stoichOnVars c && !c.vars.isEmpty
+    && hasEq c && stoichOnVars c && !c.vars.isEmpty
 
 /-- the requested free parameters are distinct plain parameters and one value is supplied for each -/
 def freeOkB (c : Content) (free : List Name) (ps : List Rat) : Bool :=
